@@ -791,6 +791,32 @@ pub fn c17_run(cfg: &RunCfg) -> CheckReport {
     rep.assume("valid UTF-8 pairs are also remapped (Myers) as a caller-side DiffableStr whose len() and slice() count characters, not bytes");
     rep.assume("consumption modes: DiffOp::iter_slices and TextDiffRemapper::iter_slices of the first two and the last op of every diff; quick tier on text pairs of up to 5 bytes in total, thorough tier 3 bytes more");
     run_pairs(cfg, &mut rep, c17_pair);
+    if !rep.has_violation() {
+        // the same clauses for diffs made from a destructor while the thread exits
+        const TEXTS: [(&str, &str); 4] = [("ab cd\nef\n", "ab xd\nef"), ("", "a"), ("\u{e9}a b", "a\u{e9} b"), ("x\ny\nz\n", "x\nz\n")];
+        let ex = explore(cfg, TEXTS.len(), |shard, acc| {
+            let (a, b) = TEXTS[shard];
+            let r = at_thread_exit(
+                move || {
+                    for &alg in ALGS.iter() {
+                        let _ = similar::utils::diff_chars(alg, a, b);
+                        let _ = similar::utils::diff_words(alg, a, b);
+                        let _ = similar::utils::diff_lines(alg, a, b);
+                    }
+                },
+                move || c17_pair(a.as_bytes(), b.as_bytes()).map(|_| ()),
+            );
+            match r {
+                Ok(()) => acc.ok(true, 1, shard as u64),
+                Err(e) => acc.violation(|| {
+                    let mut c = text_case(a.as_bytes(), b.as_bytes());
+                    c["at_thread_exit"] = json!(true);
+                    (c, format!("remapper / helpers used from a thread-local destructor at thread exit: {}", e))
+                }),
+            }
+        });
+        rep.part("thread-exit", json!({"texts": TEXTS.len(), "note": "the whole pair check run from the Drop of a thread-local value while its thread exits, after the same thread used the helpers"}), ex);
+    }
     if cfg.tier == Tier::Thorough && !rep.has_violation() {
         let avail = mem_available_gib();
         if avail >= 20 {
@@ -822,5 +848,18 @@ pub fn c17_replay(case: &Value) -> Result<String, String> {
     }
     let old = parse_bytes(case, "old")?;
     let new = parse_bytes(case, "new")?;
+    if case.get("at_thread_exit").is_some() {
+        let (o2, n2) = (old.clone(), new.clone());
+        return at_thread_exit(
+            move || {
+                for &alg in ALGS.iter() {
+                    let _ = similar::utils::diff_chars(alg, &o2[..], &n2[..]);
+                    let _ = similar::utils::diff_words(alg, &o2[..], &n2[..]);
+                }
+            },
+            move || c17_pair(&old, &new).map(|_| ()),
+        )
+        .map(|_| "holds".to_string());
+    }
     c17_pair(&old, &new).map(|r| format!("holds; {} slices, fingerprint {:x}", r.1, r.2))
 }
